@@ -380,13 +380,12 @@ func (a *Act) closureCall(res ssa.Value, instr ssa.Instruction, ci *closureInfo,
 }
 
 func (a *Act) staticCall(res ssa.Value, instr ssa.Instruction, fn *ssa.Function, args []string, st *State, reach string) {
-	g := a.g
-	eng := g.eng
 	name := shortFn(fn)
 	if a.ghostCall(res, instr, fn, args, st, reach) {
 		return
 	}
 	a.callSiteObligations(instr, fn, args, st, reach)
+	var rec *callRec
 	if a.top {
 		if a.lastCall == nil {
 			a.lastCall = map[string]*callRec{}
@@ -394,9 +393,20 @@ func (a *Act) staticCall(res ssa.Value, instr ssa.Instruction, fn *ssa.Function,
 		if r := a.lastCall[name]; r != nil && r.instr != instr {
 			r.ambiguous = true
 		} else {
-			a.lastCall[name] = &callRec{fn: fn, args: args, res: res, instr: instr, reach: reach}
+			rec = &callRec{fn: fn, args: args, res: res, instr: instr, reach: reach}
+			a.lastCall[name] = rec
 		}
 	}
+	a.staticCall0(res, instr, fn, args, st, reach)
+	if rec != nil {
+		rec.post = st.clone()
+	}
+}
+
+func (a *Act) staticCall0(res ssa.Value, instr ssa.Instruction, fn *ssa.Function, args []string, st *State, reach string) {
+	g := a.g
+	eng := g.eng
+	name := shortFn(fn)
 	if n, ok := g.forcedInline(fn); ok && !a.onStack(fn) && len(fn.Blocks) > 0 {
 		// "inlines" of the contract under verification: the callee's real body is executed in place
 		a.inlineN(res, instr, fn, args, nil, st, reach, n)
@@ -481,6 +491,7 @@ type callRec struct {
 	res       ssa.Value
 	instr     ssa.Instruction
 	reach     string
+	post      *State // the state right after the call returned
 	ambiguous bool
 }
 
